@@ -78,6 +78,7 @@ type Outcome struct {
 	Virtual    time.Duration
 	RealNs     int64
 	Races      []RaceReport // free-running mode: reports the race detector wrote during this run
+	Twin       *Outcome     // outcome of the derived scenario (Scenario.Twin), executed after this one
 }
 
 // RealTimeDialTimeout reports that a real TCP connect of the SACK path ran into its deadline. That
@@ -159,7 +160,22 @@ func setAllocators(k *Knobs) {
 }
 
 // Execute runs one scenario in a fresh bubble and returns what happened.
-func Execute(t *testing.T, sc *Scenario, keepLog bool) (out *Outcome) {
+// Execute runs the scenario and, when it names a twin, the derived scenario after it (each in a
+// bubble and a world of its own).
+func Execute(t *testing.T, sc *Scenario, keepLog bool) *Outcome {
+	out := executeOne(t, sc, keepLog)
+	if tw := sc.DeriveTwin(); tw != nil && out.W != nil && out.Deadlock == "" {
+		out.Twin = executeOne(t, tw, keepLog)
+		out.LogHash += "+" + out.Twin.LogHash
+		out.RealNs += out.Twin.RealNs
+		if out.Twin.W != nil && out.Twin.W.PortReused {
+			out.W.PortReused = true
+		}
+	}
+	return out
+}
+
+func executeOne(t *testing.T, sc *Scenario, keepLog bool) (out *Outcome) {
 	install()
 	out = &Outcome{Sc: sc}
 	start := time.Now()
